@@ -11,7 +11,7 @@ EXPLANATION = (
     "through the equal-edge of the comparison of page_buffer[size-4..] with to_be_bytes(crc(page_buffer[..size-4])); the "
     "copy out of page_buffer in Read::read is unreachable once the cache-hit edge and the Ok-edge of read_page are cut; "
     "Crc32::new/calculate have the reflected Castagnoli table/step shape; validate_crc loops on read until 0 and "
-    "propagates errors. Not decided: detection strength of CRC-32C and behaviour on concrete corruptions.")
+    "propagates errors. The cursor of the page reader moves only after the page was verified, and the validation loop ends only on a zero-length read. Not decided: detection strength of CRC-32C and behaviour on concrete corruptions.")
 
 
 def run(ctx):
